@@ -2,6 +2,7 @@
 CONSTANTS Chans = {1} Rows = {14} Chars = {65} MaxPairs = 9
   Indents = {4} Depths = {2, 3} Tabs = {1}
   Kinds = {"RU", "CR", "BS", "TO", "PAC", "TEXT", "NULL"}
+  Beyond = {}
   Mix <- NoMix Bursts <- NoBurst
 SPECIFICATION GSpec
 VIEW gview2
